@@ -589,6 +589,32 @@ mod full {
                     bytes.len()
                 )
             }
+            "rk_tuple" => {
+                // the Decimals are archived back to back in an array: with
+                // feature packed (size 17, alignment 1) the 2nd and 3rd
+                // element sit at odd offsets
+                use rkyv::Deserialize;
+                let d = pdec(arg(1)?)?;
+                let t = [d, -d, d];
+                let bytes = rkyv::to_bytes::<_, 256>(&t).map_err(|e| format!("{:?}", e))?;
+                let archived = rkyv::check_archived_root::<[Decimal; 3]>(&bytes[..])
+                    .map_err(|e| format!("{:?}", e))?;
+                let back: [Decimal; 3] = archived
+                    .deserialize(&mut rkyv::Infallible)
+                    .map_err(|e| format!("{:?}", e))?;
+                let a1 = archived[1];
+                let a2 = archived[2];
+                format!(
+                    "{} {} A {} {} {} {} T {}",
+                    dec(back[1]),
+                    dec(back[2]),
+                    { a1.coefficient() },
+                    { a1.n_frac_digits() },
+                    { a2.coefficient() },
+                    { a2.n_frac_digits() },
+                    b(a2 == d && d == a2 && archived[0] == archived[2])
+                )
+            }
             "rk_cmp" => {
                 let x = pdec(arg(1)?)?;
                 let y = pdec(arg(2)?)?;
